@@ -4,12 +4,16 @@ import (
 	"context"
 	"fmt"
 	"strings"
+	"sync"
 
 	"github.com/cloudwego/hertz/pkg/app"
 	"github.com/cloudwego/hertz/pkg/common/config"
+	"github.com/cloudwego/hertz/pkg/protocol/http1"
 	"github.com/cloudwego/hertz/pkg/route"
 
 	"verifh/mc"
+	"verifh/netsim"
+	"verifh/srvh"
 )
 
 // Part C: the two places where chain assembly itself (RouterGroup.combineHandlers) decides whether the property can
@@ -26,6 +30,13 @@ type PartC struct {
 
 func partCCases() []PartC {
 	var out []PartC
+	// the chain as the HTTP/1 server drives it (Engine.Serve over a connection), with the request-context pool on and off
+	// (HERTZ_DISABLE_REQUEST_CONTEXT_POOL): first and second request of a connection
+	for _, pl := range []string{"pool", "nopool"} {
+		for _, b := range []string{"matched", "unmatched"} {
+			out = append(out, PartC{Kind: "server", Place: pl, Beh: b})
+		}
+	}
 	for _, n := range []int{61, 62, 63, 64, 65, 70, 127, 128, 200} {
 		for _, pl := range []string{"engine", "group", "engine+mw", "group+mw"} {
 			for _, b := range []string{"abort0", "all-next"} {
@@ -60,6 +71,10 @@ func serveC(e *route.Engine, path string) (pv interface{}) {
 func execPartC(c *mc.Ctx, pc PartC, cs Case) {
 	fail := func(kind, msg string) {
 		c.Violate(fmt.Sprintf("partC|%s|%s|%s", pc.Kind, kind, pc.Place), fmt.Sprintf("%+v: %s", pc, msg), cs)
+	}
+	if pc.Kind == "server" {
+		serverChain(pc, fail)
+		return
 	}
 	e := newEngineC()
 	var entered []int
@@ -153,4 +168,40 @@ func clipInts(l []int) string {
 		return fmt.Sprint(l[:12]) + fmt.Sprintf("... (%d)", len(l))
 	}
 	return fmt.Sprint(l)
+}
+
+var noPoolMu sync.Mutex
+
+// serverChain serves two requests on one connection through Engine.Serve: engine middleware, then the route's handlers
+// (or the not-found chain), each entered once and in order, for the first request of the connection as for the second.
+func serverChain(pc PartC, fail func(kind, msg string)) {
+	noPoolMu.Lock()
+	defer noPoolMu.Unlock()
+	old := http1.SetDisableRequestContextPoolForVerif(pc.Place == "nopool")
+	defer http1.SetDisableRequestContextPoolForVerif(old)
+	s := srvh.New(srvh.Opts{})
+	var entered []string
+	mk := func(name string) app.HandlerFunc {
+		return func(c context.Context, ctx *app.RequestContext) {
+			entered = append(entered, name)
+			ctx.Next(c)
+		}
+	}
+	s.E.Use(mk("mw1"), mk("mw2"))
+	s.E.GET("/r", mk("h1"), mk("h2"))
+	s.E.NoRoute(mk("nf"))
+	s.Start()
+	target, want := "/r", "mw1 mw2 h1 h2"
+	if pc.Beh == "unmatched" {
+		target, want = "/zzz", "mw1 mw2 nf"
+	}
+	req := "GET " + target + " HTTP/1.1\r\nHost: h\r\n\r\n"
+	res := s.Run([][]byte{[]byte(req + req)}, netsim.EndEOF, nil)
+	if res.Panic != nil {
+		fail("panic", fmt.Sprintf("panic while serving: %v", res.Panic))
+		return
+	}
+	if got := strings.Join(entered, " "); got != want+" "+want {
+		fail("chain", fmt.Sprintf("two requests GET %s on one connection entered [%s], expected [%s] for each of them", target, got, want))
+	}
 }
